@@ -218,7 +218,7 @@ where
     Ok(())
 }
 
-fn check(case: &Case, cov: &mut Cov) -> CheckResult {
+pub fn check(case: &Case, cov: &mut Cov) -> CheckResult {
     if case.f32 {
         check_t::<f32>(case, cov)
     } else {
